@@ -14,6 +14,7 @@
 package signer
 
 import (
+	"bytes"
 	"context"
 	"crypto"
 	"crypto/x509"
@@ -281,34 +282,47 @@ func isPayloadDescriptorValid(originalDesc, newDesc ocispec.Descriptor) bool {
 }
 
 func areUnknownAttributesAdded(content []byte) []string {
-	var targetArtifactMap map[string]interface{}
-
-	// Ignoring error because we already successfully unmarshalled before this
-	// point
-	_ = json.Unmarshal(content, &targetArtifactMap)
-	descriptor, _ := targetArtifactMap["targetArtifact"].(map[string]interface{})
-
-	// Explicitly remove expected keys to check if any are left over
-	delete(descriptor, "mediaType")
-	delete(descriptor, "digest")
-	delete(descriptor, "size")
-	delete(descriptor, "urls")
-	delete(descriptor, "annotations")
-	delete(descriptor, "data")
-	delete(descriptor, "platform")
-	delete(descriptor, "artifactType")
-	delete(targetArtifactMap, "targetArtifact")
-
-	unknownAttributes := append(getKeySet(descriptor), getKeySet(targetArtifactMap)...)
+	// Every member of the payload and of each targetArtifact object is
+	// inspected, duplicated members included: json.Unmarshal merges duplicated
+	// members into a struct but keeps only the last one in a map, so a scan
+	// of the decoded map could miss what the struct decoding has seen.
+	var unknownAttributes []string
+	forEachObjectMember(content, func(key string, value json.RawMessage) {
+		if key != "targetArtifact" {
+			unknownAttributes = append(unknownAttributes, key)
+			return
+		}
+		forEachObjectMember(value, func(key string, _ json.RawMessage) {
+			switch key {
+			case "mediaType", "digest", "size", "urls", "annotations", "data", "platform", "artifactType":
+				// expected keys
+			default:
+				unknownAttributes = append(unknownAttributes, key)
+			}
+		})
+	})
 	return unknownAttributes
 }
 
-func getKeySet(inputMap map[string]interface{}) []string {
-	keySet := make([]string, 0, len(inputMap))
-	for k := range inputMap {
-		keySet = append(keySet, k)
+// forEachObjectMember calls f for every member of the JSON object, in order.
+// It does nothing if object is not a JSON object.
+func forEachObjectMember(object []byte, f func(key string, value json.RawMessage)) {
+	dec := json.NewDecoder(bytes.NewReader(object))
+	if t, err := dec.Token(); err != nil || t != json.Delim('{') {
+		return
 	}
-	return keySet
+	for dec.More() {
+		t, err := dec.Token()
+		key, ok := t.(string)
+		if err != nil || !ok {
+			return
+		}
+		var value json.RawMessage
+		if err := dec.Decode(&value); err != nil {
+			return
+		}
+		f(key, value)
+	}
 }
 
 func parseCertChain(certChain [][]byte) ([]*x509.Certificate, error) {
